@@ -5,18 +5,19 @@ import os
 
 ROOT = os.path.dirname(os.path.dirname(os.path.abspath(__file__)))
 
-CLAIMED = {
-    "C16": dict(
-        text=("Coq theorems (offset range/bijection/injectivity, sub-tensor/vector/matrix views, slices, reshape with one "
-              "inferred dimension, gather) about an executable model whose arithmetic steps are regenerated from "
-              "dims.h/tensor.h on every run by tools/translate.py; the extracted model is compared with the real tensor "
-              "classes (ASan+UBSan) on an exhaustive enumeration of small shapes and random large ones. Summed-area table "
-              "and storage conversions are searched, not proved."),
-        note=("Coq kernel; translator (13 kernels); extraction (ExtrOcamlBasic); harness + OCaml driver; NDEBUG build: only "
-              "valid accesses explored; Eigen Map/vector storage modelled as a flat list."),
-        technique="Coq proof over a translated+extracted model, exhaustive differential correspondence",
-        design="§2 C16"),
-}
+import importlib
+import sys
+
+sys.path.insert(0, os.path.join(ROOT, "tools"))
+sys.path.insert(0, os.path.join(ROOT, "tools", "checks"))
+
+# every tools/checks/cXX.py that defines MANIFEST = dict(text=, note=, technique=, design=[, category=]) is a claimed check
+CLAIMED = {}
+for _f in sorted(os.listdir(os.path.join(ROOT, "tools", "checks"))):
+    if _f.startswith("c") and _f.endswith(".py"):
+        _m = importlib.import_module(_f[:-3])
+        if hasattr(_m, "MANIFEST"):
+            CLAIMED[_f[:-3].upper()] = _m.MANIFEST
 
 PENDING = {
 }
